@@ -409,6 +409,15 @@ pub fn exec(env: &Env, case: &J, acc: &mut Acc) -> Result<(), Fail> {
     let keep = case["keep_open"].as_bool().unwrap_or(false);
     let script: Vec<String> = case["script"].as_array().map(|a| a.iter().filter_map(|x| x.as_str()).map(|s| s.to_string()).collect()).unwrap_or_default();
     let final_newline = case["final_newline"].as_bool().unwrap_or(true);
+    // without a final newline an empty last script line is not a line at all: the input
+    // simply ends after the previous line's newline
+    let mut script = script;
+    if !final_newline && script.last().map(|l| l.is_empty()).unwrap_or(false) {
+        script.pop();
+        let case_note = "empty last line without final newline dropped";
+        let _ = case_note;
+    }
+    let final_newline = final_newline || script.len() != case["script"].as_array().map(|a| a.len()).unwrap_or(0);
     let dir = scratch(env);
     let file = "case.ink";
     std::fs::write(dir.join(file), src).map_err(|e| Fail::harness(format!("cannot write scratch file: {e}")))?;
